@@ -107,7 +107,7 @@ class C07(Prop):
             m = r.meta
             head = ('#[::derive_ex::derive_ex(%s)]\n' % r.attr) if r.mode == 'A' else '#[derive(::derive_ex::Ex)]\n'
             ty = 'E' if m['enum'] else 'X'
-            src = ['#[derive(Debug, PartialEq)]\n' + head + r.item, 'pub fn run() {']
+            src = [l2.decl('#[derive(Debug, PartialEq)]\n' + head, r.item, r.cid), 'pub fn run() {']
             exp = []
             vs = m['vs']
             for ai, (ka, na, pa) in enumerate(vs):
